@@ -4,6 +4,9 @@ manifest stays valid while checks are added)."""
 import json, os
 ROOT = os.path.dirname(os.path.abspath(__file__))
 CHECKS = {
+ "C04": dict(level="exploration", technique="hostile-input execution in crash-isolated children under overflow/debug-assert instrumentation, step-budget hang detector and counting/capping allocator; exhaustive <=3-byte strings and single-byte header substitutions, field-aware edits through an independent encoder, FDT XML rewriting, mutation sequences; probe-session usability oracle",
+     text="Seven classes of hostile packet sequences (about 18 M pushes quick) run against the real MultiReceiver in single-threaded child processes; the parent attributes panics, step-budget trips, allocation-cap hits and aborts to the sequence in flight and restarts. After every sequence two valid probe sessions must still be delivered. Thorough adds all 255 substitution values, 10x more XML/sequence cases, ASan/Miri/valgrind sub-runs. Held on the sequences executed.",
+     note="trusted: counting allocator numbers, step hooks at the loops listed in MANIFEST.hooks commits; dependencies are exercised through flute only", ref="DESIGN.md §5 C04"),
  "C03": dict(level="fault_enumeration", technique="exhaustive permutation and sub-multiset enumeration of small sessions + sampled reorder/duplicate/stale/payload-fault histories; safety automaton at the writer boundary (Complete => exact bytes, single terminal call)",
      text="All orderings (n! for n<=8 quick / 10 thorough packets incl. the FDT) and all sub-multisets with multiplicity <=2 of a catalogue of small sessions, plus seeded shuffles, bounded-displacement reorderings, stale replays and cross-transfer/carousel mixes of larger sessions with receive-once on/off, and bit-flip/truncate/extend/swap payload faults on MD5-announced objects are pushed into the real receiver; the monitoring writer decides byte equality at every Complete. Complete for the enumerated shapes, sampled beyond.",
      note="trusted: monitoring writer, original object bytes; liveness not demanded", ref="DESIGN.md §5 C03"),
